@@ -14,7 +14,7 @@ Theorem loop_source_to_fully_optimised :
     forall tl te, tf_body tf = tl ++ [TRet (Some te)] -> length tl = length l ->
     forallb tok (flat_map (wtopexprs n) tl ++ [te]) = true ->
     lits_exact (flat_map tflits (flat_map (wtopexprs n) tl ++ [te])) -> (forall q, In q (flat_map tflits (flat_map (wtopexprs n) tl ++ [te])) -> PrimFloat.eqb q q = true) ->
-    Forall (fresh_decl (glnames M) (argnames fn)) l ->
+    Forall (fresh_decl (glnames M) (argnames fn)) l -> fors_fresh (glnames M) (argnames fn) (fenv M fn) l ->
     forall T N, cc_hyps_b F T N = true -> vals_exact (fold_vals F (fn_consts F ++ N)) -> flow_hyps_b (cc_apply T (fn_consts F ++ N) F) = true ->
     let F'' := opt_load_after_store (cc_apply T (fn_consts F ++ N) F) in
     forall (P : program) (ws : list rval) (g : RefSem.frame) (vs : vmstate),
@@ -26,8 +26,8 @@ Theorem loop_source_to_fully_optimised :
         exists v vs', fl = OReturn (SV v) /\
           exists K, run K P F'' 0 (call_frame ws (init_regs F'')) vs = Done (v_of v) vs'.
 Proof.
-  intros M fn n l e tf F Hbody Hs Hp Helab Hlower tl te Htb Hlen Hk Hlit Hnan Hfr T N Hc Hx Hf F'' P ws g vs Hargs Hdist Hglob fuel fl st' Hex.
-  destruct (loop_function_simulation M fn n l e tf F Hbody Hs Hp Helab Hlower tl te Htb Hlen Hk Hlit Hnan Hfr P ws g vs Hargs Hdist Hglob fuel fl st' Hex)
+  intros M fn n l e tf F Hbody Hs Hp Helab Hlower tl te Htb Hlen Hk Hlit Hnan Hfr Hff T N Hc Hx Hf F'' P ws g vs Hargs Hdist Hglob fuel fl st' Hex.
+  destruct (loop_function_simulation M fn n l e tf F Hbody Hs Hp Helab Hlower tl te Htb Hlen Hk Hlit Hnan Hfr Hff P ws g vs Hargs Hdist Hglob fuel fl st' Hex)
     as (v & vs' & Hfl & (K & Hrun) & _).
   exists v, vs'. split; [exact Hfl|].
   exact (optimiser_check_sound P F T N Hc Hx Hf K (map v_of ws) vs (Done (v_of v) vs') (Hrun K (le_n K)) Logic.I).
